@@ -25,7 +25,7 @@ Proof.
     unfold acts_cost in Hc. cbn [fold_right snd] in Hc. fold (acts_cost acts) in Hc.
     rewrite print_acts_cons. norm.
     destruct (print_name_head nm Hnm) as [c [r [Eh Hco]]].
-    assert (Hstop : stops is_hsp (print_name nm ++ print_acts acts ++ kk)) by (rewrite Eh; exact (opener_not_hsp c Hco)).
+    assert (Hstop : stops is_hsp (print_name nm ++ print_acts acts ++ kk)) by (rewrite Eh; exact (seg_head_not_hsp c Hco)).
     cbn [outputs_more].
     rewrite (skip_hsp_then w1 44 _ o b Hw1 eq_refl). cbn [snd]. rewrite eat_hit.
     rewrite (skip_hsp_run w2 _ _ b Hw2 Hstop). cbn [snd].
@@ -37,19 +37,21 @@ Qed.
 
 (** After the outputs / a leading expression: not "=" or ":" (after horizontal space). *)
 Definition nosign_followb (k : str) : bool :=
-  stopsb (fun c => seg_start c || (c =? 44) || (c =? 58) || (c =? 61)) (snd (span is_hsp k)).
+  stopsb (fun c => seg_start c || (c =? 44) || (c =? 58) || (c =? 61)) (snd (span is_hsp k)) && naked_stopb k.
 
 Lemma nosign_ltr k : nosign_followb k = true -> ltr_followb k = true.
 Proof.
-  unfold nosign_followb, ltr_followb. destruct (snd (span is_hsp k)) as [|c t]; [reflexivity|].
-  cbn [stopsb]. intro H. apply negb_true_iff in H. apply orb_false_iff in H as [H _]. apply orb_false_iff in H as [H _].
+  unfold nosign_followb, ltr_followb. intro H. apply andb_true_iff in H as [H N0]. apply andb_true_iff. split; [|exact N0].
+  destruct (snd (span is_hsp k)) as [|c t]; [reflexivity|].
+  cbn [stopsb] in *. apply negb_true_iff in H. apply orb_false_iff in H as [H _]. apply orb_false_iff in H as [H _].
   rewrite H. reflexivity.
 Qed.
 
 Lemma no_sign_after_hsp (k : str) o b : nosign_followb k = true ->
   eat 58 (snd (skip_hsp (mkSt k o b))) = None /\ eat 61 (snd (skip_hsp (mkSt k o b))) = None.
 Proof.
-  unfold nosign_followb, skip_hsp, opt_hsp. cbn [rest]. destruct (span is_hsp k) as [w r]. cbn [snd].
+  unfold nosign_followb, skip_hsp, opt_hsp. cbn [rest]. intro H. apply andb_true_iff in H as [H _]. revert H.
+  destruct (span is_hsp k) as [w r]. cbn [snd].
   destruct r as [|c t]; [split; reflexivity|]. cbn [stopsb]. intro H. apply negb_true_iff in H.
   apply orb_false_iff in H as [H H61]. apply orb_false_iff in H as [_ H58].
   apply N.eqb_neq in H58, H61. unfold adv. split; apply eat_miss; assumption.
@@ -98,6 +100,30 @@ Proof.
     rewrite H44. reflexivity.
 Qed.
 
+Lemma eol_naked e (REST : str) : eol_text_ok e REST -> naked_stopb (print_eol e ++ REST) = true.
+Proof.
+  intros [Hok Hr]. destruct e as [w [[c ws]|]]; unfold eol_ok in Hok; unfold print_eol; cbn [fst snd] in *.
+  - apply andb_true_iff in Hok as [Hw Hc]. apply andb_true_iff in Hc as [Hc Hws]. norm.
+    apply naked_stopb_ws_then; [exact (hsp_run_ws w Hw)|].
+    apply orb_true_iff in Hc as [Hc|Hc]; apply N.eqb_eq in Hc; subst c; reflexivity.
+  - apply andb_true_iff in Hok as [Hw _]. subst REST. rewrite !app_nil_r. exact (naked_stopb_ws_end w (hsp_run_ws w Hw)).
+Qed.
+
+Lemma acts_then_eol_naked acts e (REST : str) : acts_ok acts = true -> eol_text_ok e REST ->
+  naked_stopb (print_acts acts ++ print_eol e ++ REST) = true.
+Proof.
+  intros Ha He. destruct acts as [|[[w1 w2] nm] acts].
+  - cbn [print_acts flat_map app]. exact (eol_naked e REST He).
+  - cbn [acts_ok forallb fst snd] in Ha. apply andb_true_iff in Ha as [Ha _].
+    apply andb_true_iff in Ha as [Ha _]. apply andb_true_iff in Ha as [Hw1 _].
+    rewrite print_acts_cons. norm. apply naked_stopb_ws_then; [exact (hsp_run_ws w1 Hw1) | reflexivity].
+Qed.
+
+Ltac follow_tac Ha Heol :=
+  apply andb_true_iff; split;
+  [ first [ apply acts_then_eol_follow; [exact Ha | exact Heol | reflexivity ..] | apply eol_follow; [exact Heol | reflexivity ..] ]
+  | first [ apply acts_then_eol_naked; [exact Ha | exact Heol] | apply eol_naked; exact Heol ] ].
+
 (** The body of a statement: [ltr_shorthand eol]. *)
 Definition p_body (fuel : nat) (s : st) : res aexpr :=
   match p_ltr fuel s with
@@ -135,10 +161,10 @@ Lemma body_roundtrip st (REST : str) fuel o b :
 Proof.
   intros He Ha Heol Hc. unfold p_body, print_body, p_ltr, p_ltr_with. norm.
   assert (Hf : expr_followb (print_acts (ps_acts st) ++ print_eol (ps_eol st) ++ REST) = true)
-    by (apply acts_then_eol_follow; [exact Ha | exact Heol | reflexivity ..]).
+    by (unfold expr_followb; follow_tac Ha Heol).
   rewrite (expr_roundtrip (height (ps_expr st)) (ps_expr st) (le_n _) fuel _ o b He Hf) by lia.
   assert (Hl : ltr_followb (print_eol (ps_eol st) ++ REST) = true)
-    by (apply eol_follow; [exact Heol | reflexivity ..]).
+    by (unfold ltr_followb; follow_tac Ha Heol).
   rewrite (ltr_more_spec (ps_acts st) fuel fuel _ _ _ b Ha Hl);
     [| pose proof (acts_cost_length (ps_acts st)); lia | lia].
   cbn [rest]. rewrite (eol_roundtrip (ps_eol st) REST Heol). unfold adv, body_val. cbn [off bad].
@@ -153,12 +179,12 @@ Lemma p_target_none st (REST : str) fuel o b :
 Proof.
   intros He Ha Heol Hc. unfold print_body. norm.
   set (KK := print_eol (ps_eol st) ++ REST).
-  assert (Hns : nosign_followb KK = true) by (apply eol_follow; [exact Heol | reflexivity ..]).
+  assert (Hns : nosign_followb KK = true) by (unfold nosign_followb, KK; follow_tac Ha Heol).
   set (K := print_acts (ps_acts st) ++ KK).
   destruct (ps_expr st) as [a nm | nm w s0 first more trail s1 | s0 e acts s1] eqn:Ee.
   - (* reference: the name scanner runs to the end of the reference (or to a "/") *)
     cbn [cost] in Hc.
-    assert (Hnf : name_followb K = true) by (apply acts_then_eol_follow; [exact Ha | exact Heol | reflexivity ..]).
+    assert (Hnf : name_followb K = true) by (unfold name_followb, K, KK; follow_tac Ha Heol).
     destruct (p_name_on_reference a nm K fuel o b He Hnf ltac:(lia)) as [[v1 v2] [H | [w' [R [o' [Hw' H]]]]]];
       unfold p_target, p_output_list; rewrite H.
     + unfold K. rewrite (outputs_more_spec (ps_acts st) fuel fuel KK _ b Ha (nosign_ltr KK Hns));
@@ -172,7 +198,7 @@ Proof.
   - (* step: the output list stops at "(" *)
     cbn [cost] in Hc. cbn [expr_ok] in He. do 6 (apply andb_true_iff in He as [He ?H]).
     rewrite print_expr_step. norm. unfold p_target, p_output_list.
-    rewrite (name_roundtrip nm fuel _ o b He (name_followb_hsp_then w 40 _ H4 eq_refl eq_refl)) by lia.
+    rewrite (name_roundtrip nm fuel _ o b He (name_followb_hsp_then w 40 _ H4 eq_refl eq_refl eq_refl)) by lia.
     destruct fuel as [|f]; [lia|]. cbn [outputs_more].
     rewrite (skip_hsp_then w 40 _ _ b H4 eq_refl). cbn [snd]. rewrite eat_miss by discriminate.
     rewrite (skip_hsp_then w 40 _ _ b H4 eq_refl). rewrite !eat_miss by discriminate. reflexivity.
@@ -203,9 +229,10 @@ Proof.
   { unfold sign. destruct named; [exists 58, [61] | exists 61, []]; auto. }
   destruct Hsign as [c [r [Es Hc']]].
   assert (Hkk : ltr_followb (w1 ++ sign ++ w2 ++ BODY) = true).
-  { rewrite Es. cbn [app]. unfold ltr_followb.
-    rewrite (span_app is_hsp w1 (c :: _) Hw1) by (destruct Hc' as [->| ->]; reflexivity).
-    cbn [snd stopsb]. destruct Hc' as [->| ->]; reflexivity. }
+  { rewrite Es. cbn [app]. unfold ltr_followb. apply andb_true_iff. split.
+    - rewrite (span_app is_hsp w1 (c :: _) Hw1) by (destruct Hc' as [->| ->]; reflexivity).
+      cbn [snd stopsb]. destruct Hc' as [->| ->]; reflexivity.
+    - apply naked_stopb_ws_then; [exact (hsp_run_ws w1 Hw1) | destruct Hc' as [->| ->]; reflexivity]. }
   unfold p_target, p_output_list.
   rewrite (name_roundtrip n0 fuel _ o b Hn0 (acts_follow more _ Hmore Hkk)) by lia.
   rewrite (outputs_more_spec more fuel fuel _ _ b Hmore Hkk); [| pose proof (acts_cost_length more); lia | lia].
@@ -265,7 +292,7 @@ Proof.
   apply andb_true_iff in Hok as [Hok _]. apply andb_true_iff in Hok as [Ht He].
   rewrite print_stmt_split. destruct (ps_first_out st) as [[[[[n0 more] w1] named] w2]|].
   - do 3 (apply andb_true_iff in Ht as [Ht _]). destruct (print_name_head n0 Ht) as [c [r [E Hc]]].
-    cbn [print_target]. rewrite E. cbn [app stops]. destruct Hc as [->|[->| ->]]; reflexivity.
+    cbn [print_target]. rewrite E. cbn [app stops]. exact (expr_head_not_ws c (seg_head_expr c Hc)).
   - cbn [print_target app]. unfold print_body. rewrite <- app_assoc. exact (print_expr_stops_ws _ _ He).
 Qed.
 
